@@ -241,7 +241,10 @@ impl Params {
         let tier = kv.remove("tier").unwrap_or_else(|| "quick".into());
         let shard = kv.remove("shard").unwrap_or_else(|| "0".into());
         let out = kv.remove("out");
-        let scale = kv.remove("scale").and_then(|s| s.parse().ok()).unwrap_or(1.0);
+        let scale = kv
+            .remove("scale")
+            .and_then(|s| s.parse().ok())
+            .unwrap_or(1.0);
         let replay = kv.remove("replay");
         let budget_s = kv
             .remove("budget_s")
@@ -367,11 +370,18 @@ impl Report {
         }
     }
     pub fn violation(&mut self, signature: &str, what: &str, witness: Json) {
-        if let Some(v) = self.violations.iter_mut().find(|v| v.signature == signature) {
+        if let Some(v) = self
+            .violations
+            .iter_mut()
+            .find(|v| v.signature == signature)
+        {
             v.count += 1;
             return;
         }
-        eprintln!("[{}] violation signature={} what={}", self.property, signature, what);
+        eprintln!(
+            "[{}] violation signature={} what={}",
+            self.property, signature, what
+        );
         self.violations.push(Violation {
             signature: signature.to_string(),
             what: what.to_string(),
@@ -406,7 +416,10 @@ impl Report {
                         .collect(),
                 ),
             ),
-            ("nontrivial_overflow", Json::Int(self.nontrivial_overflow as i128)),
+            (
+                "nontrivial_overflow",
+                Json::Int(self.nontrivial_overflow as i128),
+            ),
             (
                 "counters",
                 Json::Obj(
@@ -567,9 +580,14 @@ pub fn panic_class(msg: &str) -> &'static str {
         "mul-overflow"
     } else if m.contains("attempt to shift") {
         "shift-overflow"
-    } else if m.contains("attempt to divide by zero") || m.contains("remainder with a divisor of zero") {
+    } else if m.contains("attempt to divide by zero")
+        || m.contains("remainder with a divisor of zero")
+    {
         "div-zero"
-    } else if m.contains("out of range for slice") || m.contains("index out of bounds") || m.contains("out of bounds") {
+    } else if m.contains("out of range for slice")
+        || m.contains("index out of bounds")
+        || m.contains("out of bounds")
+    {
         "index-oob"
     } else if m.contains("slice index starts at") {
         "slice-order"
@@ -583,7 +601,11 @@ pub fn panic_class(msg: &str) -> &'static str {
         "assertion"
     } else if m.contains("capacity overflow") {
         "capacity-overflow"
-    } else if m.contains("cannot advance past") || m.contains("advance out of bounds") || m.contains("split_to out of bounds") || m.contains("buffer") {
+    } else if m.contains("cannot advance past")
+        || m.contains("advance out of bounds")
+        || m.contains("split_to out of bounds")
+        || m.contains("buffer")
+    {
         "bytes-bounds"
     } else {
         "other"
